@@ -48,16 +48,17 @@ def run(c):
     wits, msgs = A.model_check_and_generate(c, k, "cap scaled to 3, depth %d" % (k["MaxDepth"] - 1))
     kc = A.consts(FailCap=10, Focus="cap", ConfigSel={"plain"}, MaxDepth=14)
     capwits, _ = A.model_check_and_generate(c, kc, "real cap 10, failing-attempt alphabet, 13 messages")
-    sens = []
+    # a rejected unsigned publickey probe that is answered outside _send_auth_result (not counted, no cap) - both tiers
+    sens = [({"ProbeFailCounts": False, "MaxDepth": 5}, "CapRespected")]
     if not c.quick:
-        sens = [({"PinsUser": False}, "SwitchEnds|UserPinned|OneUser"), ({"CapOffset": 1}, "CapRespected"),
+        sens += [({"PinsUser": False}, "SwitchEnds|UserPinned|OneUser"), ({"CapOffset": 1}, "CapRespected"),
                 ({"RekeyResetsAuthState": True}, "UserPinned|CapRespected|OneUser"),
                 ({"ServiceRequestResets": True}, "UserPinned|CapRespected|OneUser"),
                 ({"UnpinnedUser": "anon", "Users": {"alice", "anon"}}, "SwitchEnds|OneUser"),
                 ({"PartialCounts": True}, "CapExact")]
         c.mc_holds("ServerAuth", A.mc_cfg(A.consts(FailCap=10, MaxDepth=14)), name="real cap, full alphabet, 13 messages", workers=2, env=A.JVM)
     for sw, inv in sens:
-        c.mc("ServerAuth", A.mc_cfg(A.consts(MaxDepth=7, ConfigSel={"plain"}, **sw)), expect=inv,
+        c.mc("ServerAuth", A.mc_cfg(A.consts(**dict({"MaxDepth": 7, "ConfigSel": {"plain"}}, **sw))), expect=inv,
              name="sensitivity: %s" % sw, workers=1, env=A.JVM)
 
     ph["model_checking"] = round(time.time() - t0, 1)
@@ -125,6 +126,17 @@ def run(c):
         for who in (("client", "server")[i % 2:][:1] if c.quick else ("client", "server")):
             seq = w["hist"] + [A.clean({"k": "rekey", "tok": who})] + [req(prim, "fail")] * 4
             jobs.append({"bursts": A.single(seq), "opts": {}, "key": "rekey-cap|" + A.seq_key(seq), "names": A.DEFAULT_NAMES})
+    # unsigned publickey probes ("is this key acceptable?", no signature) for keys the application rejects are failed
+    # attempts like any other: a client walking through 12 DISTINCT keys is cut off at the tenth, the eleventh key is not
+    # put to the application - alone, after other failures, with accepted probes in between; step by step and pipelined
+    probe = lambda i, cb="fail": rq(prim, "publickey", cb, sig="absent", pk="fresh-%d" % i)
+    for name, seq in (("12-rejected", [probe(i) for i in range(12)]),
+                      ("5-none+7-rejected", [req(prim, "fail")] * 5 + [probe(i) for i in range(7)]),
+                      ("alternating-ok-rejected", [probe(i, "ok" if i % 2 else "fail") for i in range(23)]),
+                      ("rejected-then-signed", [probe(i) for i in range(9)] + [rq(prim, "publickey", "fail", sig="good")] * 2)):
+        for bursty in (False, True):
+            jobs.append({"bursts": [seq] if bursty else A.single(seq), "opts": {}, "key": "probe-cap|%s|%s" % (name, bursty),
+                         "names": A.DEFAULT_NAMES, "sample": name == "12-rejected" and not bursty})
     traces = A.execute(c, jobs, other_sid, "TLC-generated")
     ph["replay"] = round(time.time() - t0, 1)
     # ---- TV: code -> spec
@@ -136,7 +148,9 @@ def run(c):
     c.rule = ("replay: TLC witness history of every control state of ServerAuth (depth %d, cap scaled to 3, 5 server configurations) "
               "plus one message of the %d-message alphabet, always including every request that names the other user or another "
               "service; %d walks towards the real cap of 10 over failing / partially succeeding / probing attempts, the ones at 8-9 "
-              "failures extended by 4 further messages both step by step and pipelined; traces: seeded random sequences of 6-25 "
+              "failures extended by 4 further messages both step by step and pipelined; 4 fixed walks of unsigned publickey probes for "
+              "rejected keys (12 distinct keys; after other failures; alternating with accepted probes; followed by signed requests), "
+              "step by step and pipelined; traces: seeded random sequences of 6-25 "
               "messages mixing users, services, methods, outcomes and key re-exchanges (client- or server-initiated, also just below the cap), pipelined in random bursts; distinct = distinct "
               "(configuration, message sequence, burst partition, rendering)" % (k["MaxDepth"] - 1, len(msgs), len(capwits)))
     ph["validated"] = round(time.time() - t0, 1)
